@@ -295,6 +295,14 @@ func ruleFieldWriterCensus(rule string) func(p *Prog, r *Result) {
 						}
 					}
 					r.Check(appendOnly, rule, fmt.Sprintf("%s / %s is only appended to", name, short), p.InstrPos(w.Instr), "p.docs = append(p.docs, x): document order is never disturbed", "Parser.docs is assigned something other than append(p.docs, x): document order can change")
+				} else if strings.HasSuffix(field, "Document.Parents") {
+					// the list of parents belongs to the document: it is grown (append onto itself), built afresh, or nil —
+					// never a slice the caller still holds (a later append would then write into memory the caller, or a
+					// sibling document that was handed the same slice, also sees)
+					st, _ := w.Instr.(*ssa.Store)
+					owned := st != nil && ownedSliceValue(st.Val, field, 0)
+					r.Check(owned, rule, fmt.Sprintf("%s / %s stays the document's own slice", name, short), p.InstrPos(w.Instr), "append(d.Parents, ...), a fresh slice or nil",
+						"Document.Parents is assigned a slice that came from outside (a parameter, another document's list): documents then share one backing array, and recording a merge target in one of them overwrites what a sibling recorded")
 				} else {
 					r.OK(rule, fmt.Sprintf("%s / writes %s", name, short), p.InstrPos(w.Instr), "expected writer")
 				}
@@ -512,4 +520,44 @@ func ruleListsRebuilt(rule string) func(p *Prog, r *Result) {
 		r.OK(rule, "lists are rebuilt, never edited in place", "", fmt.Sprintf("%d writes in %d library functions examined; no element store targets a slice reachable from a parameter", nWrites, nFns))
 		r.Floor(rule, "container writes examined in package bkl", nWrites, 20)
 	}
+}
+
+// ownedSliceValue: v is append(<the same field of some object>, ...) (growing the field in place), a fresh slice
+// (make, literal, nil), a full copy (slices.Clone, append onto nil/fresh) — or a phi of such values.
+func ownedSliceValue(v ssa.Value, field string, depth int) bool {
+	if depth > 4 {
+		return false
+	}
+	switch x := v.(type) {
+	case *ssa.Const:
+		return x.IsNil()
+	case *ssa.MakeSlice:
+		return true
+	case *ssa.Slice:
+		if _, isAlloc := x.X.(*ssa.Alloc); isAlloc {
+			return true // a literal
+		}
+		return false
+	case *ssa.Phi:
+		for _, e := range x.Edges {
+			if !ownedSliceValue(e, field, depth+1) {
+				return false
+			}
+		}
+		return true
+	case *ssa.Call:
+		if bi, ok := x.Common().Value.(*ssa.Builtin); ok && bi.Name() == "append" {
+			base := x.Common().Args[0]
+			if u, isU := base.(*ssa.UnOp); isU {
+				if fa, isFA := u.X.(*ssa.FieldAddr); isFA && fieldName(fa) == field {
+					return true
+				}
+			}
+			return ownedSliceValue(base, field, depth+1)
+		}
+		if name, _ := calleeFullName(x.Common()); name == "slices.Clone" {
+			return true
+		}
+	}
+	return false
 }
